@@ -751,7 +751,10 @@ func (r *TARun) stepOnce() (done bool, progress bool) {
 		r.Final = "complete"
 		return true, false
 	case core.Failed:
-		_, _, _, logmsg, kind, errPaths := r.ps.GetFatalError()
+		mdFq, _, _, logmsg, kind, errPaths := r.ps.GetFatalError()
+		if r.Tracer != nil {
+			r.Tracer.fatal(mdFq, string(kind))
+		}
 		r.ErrMsg = fmt.Sprintf("%s|%s|%s", kind, strings.Join(errPaths, ","), logmsg)
 		r.log("failed", "", r.ErrMsg)
 		r.ps.Unlock()
